@@ -7,6 +7,7 @@ import GontainerModel.Model.Runner
 import GontainerModel.Model.Decode
 import GontainerModel.Model.Emit
 import GontainerModel.Model.Runtime
+import GontainerModel.Model.History
 open Lean GM
 
 namespace Drv
@@ -264,25 +265,22 @@ def rtScript (p : Runtime.Prog) (ops : List Json) : List Json :=
     let a := (op.getArr?.toOption.getD #[]).toList
     let s := fun (i : Nat) => ((a[i]?).bind (·.getStr?.toOption)).getD ""
     match s 0 with
+    -- the calls a program can make go through `Runtime.stepOp`, the step function the history theorems are about
     | "get" =>
-      let (st', _, r) := Runtime.get F p st [] (s 1)
+      let (st', r) := Runtime.stepOp F p st (.get (s 1))
       (st', out ++ [rtResult st' r])
-    | "newctx" => ({ st with ctxBags := (s 1, []) :: st.ctxBags }, out ++ [Json.mkObj [("ok", "ctx")]])
+    | "newctx" => ((Runtime.stepOp F p st (.newCtx (s 1))).1, out ++ [Json.mkObj [("ok", "ctx")]])
     | "getctx" =>
-      let bag := (st.ctxBags.lookup (s 1)).getD []
-      let (st', bag', r) := Runtime.get F p st bag (s 2)
-      let st'' := { st' with ctxBags := (s 1, bag') :: st'.ctxBags.filter (·.1 != s 1) }
-      (st'', out ++ [rtResult st'' r])
+      let (st', r) := Runtime.stepOp F p st (.getCtx (s 1) (s 2))
+      (st', out ++ [rtResult st' r])
     | "tagged" =>
-      let (st', _, r) := Runtime.getTagged F p st [] (s 1)
+      let (st', r) := Runtime.stepOp F p st (.tagged (s 1))
       (st', out ++ [rtResult st' r])
     | "taggedctx" =>
-      let bag := (st.ctxBags.lookup (s 1)).getD []
-      let (st', bag', r) := Runtime.getTagged F p st bag (s 2)
-      let st'' := { st' with ctxBags := (s 1, bag') :: st'.ctxBags.filter (·.1 != s 1) }
-      (st'', out ++ [rtResult st'' r])
+      let (st', r) := Runtime.stepOp F p st (.taggedCtx (s 1) (s 2))
+      (st', out ++ [rtResult st' r])
     | "param" =>
-      let (st', r) := Runtime.getParam F p st (s 1)
+      let (st', r) := Runtime.stepOp F p st (.param (s 1))
       (st', out ++ [rtResult st' r])
     | "ovparam" =>
       let (st', v) := specVal st ((a[2]?).getD Json.null)
@@ -305,9 +303,7 @@ def rtScript (p : Runtime.Prog) (ops : List Json) : List Json :=
       match hit with
       | none => (st, out ++ [Json.mkObj [("nomethod", m)]])
       | some (n, inCtx, must) =>
-        let bag := if inCtx then (st.ctxBags.lookup (s 2)).getD [] else []
-        let (st', bag', r) := Runtime.get F p st bag n
-        let st'' := if inCtx then { st' with ctxBags := (s 2, bag') :: st'.ctxBags.filter (·.1 != s 2) } else st'
+        let (st'', r) := Runtime.stepOp F p st (if inCtx then .getCtx (s 2) n else .get n)
         match r, must with
         | .error e, true => (st'', out ++ [Json.mkObj [("panic", e)]])
         | r, _ => (st'', out ++ [rtResult st'' r])
